@@ -493,10 +493,10 @@ func alinExhaustive(g *hx.Gen, def string, maxLen int, stride int) {
 
 func c08linGen(g *hx.Gen) {
 	// bounded-exhaustive part
-	alinExhaustive(g, "-ab", g.Scale(3, 5), 1)
-	alinExhaustive(g, "-abc", g.Scale(3, 4), g.Scale(2, 1))
+	alinExhaustive(g, "-ab", g.Scale(4, 5), 1)
+	alinExhaustive(g, "-abc", g.Scale(3, 4), 1)
 	// random matrices on tiny sequences: score coincidences
-	n := g.Scale(1500, 40000)
+	n := g.Scale(5000, 40000)
 	for k := 0; k < n && !g.Done(); k++ {
 		def := []string{"-ab", "-abc"}[g.Intn(2)]
 		m := alinRandMatrix(g, len(def))
@@ -505,7 +505,7 @@ func c08linGen(g *hx.Gen) {
 		g.Casef("%s %s %s %s %s LL", alinOps[g.Intn(3)], alinAlphaTok(def, true, '-'), alinMatrixTok(m), hx.Hex(r), hx.Hex(q))
 	}
 	// random pairs over DNA and protein up to length 200
-	n = g.Scale(1500, 100000)
+	n = g.Scale(5000, 100000)
 	for k := 0; k < n && !g.Done(); k++ {
 		g.Case(alinRandomCase(g, g.Scale(120, 200)))
 	}
